@@ -84,3 +84,49 @@ claim("C14",
       "go/types + go/ssa of x/tools v0.29.0, default build configuration; the frozen tables in lint/internal/rules/c14*.go (exemptions: Header.signerNodeID, ChangeLog.OldVal, Event derived "
       "fields, AccountData legacy TxHashList/TxCount, trie.fullNode encode-only, 4 unreachable decoder shapes, AccountData map order); reflection in common/rlp is trusted to use declaration order and "
       "struct tags symmetrically; dynamic shapes are read off MakeInterface operands in constructors/decoders (a shape passed through a parameter makes the obligation undecided)")
+
+claim("C05",
+      "closed classified writer set + amount identity on SSA values + heeded-guard/ordering of the gas bracket + interprocedural single-sink value flow of gas + validated-use of signed tx fields (SSA/CFG)",
+      "Decides structural necessary conditions of LEMO conservation for all paths at once: every call site of AccountAccessor.SetBalance (15, incl. journal "
+      "replay) lies in a frozen, classified table and the Transfer/CanTransfer hooks are only ever bound to transaction.Transfer/CanTransfer; Transfer, Refund "
+      "and self-destruct move one SSA amount between two accounts' own balances with the credited balance read after the debit; applyTx buys gas, pays intrinsic "
+      "gas, executes and refunds in that order with every rejection heeded, buyGas/refundGas use limit×price and rest×price of the same tx and payer, handleTx "
+      "reports limit−rest, and Process/ApplyTxs/RunBoxTxs charge gas×GasPrice() of the applied tx once after the loop on every successful exit; per execution root "
+      "the gas result of each applyTx call must reach exactly one chargeForGas site (this reports D22: box sub-tx gas reaches two sites — recorded as known finding); "
+      "Account.SetBalance keeps its negative-panics guard, GetBalance returns a copy, each debit is dominated by a sufficiency comparison on the same account and "
+      "amount; minting and deposit refunds are dominated by IsRewardBlock(height); ApplyTxs reverts to the per-tx snapshot on every applyTx error edge; every "
+      "*big.Int field of txdata is rejected when negative by VerifyTxBody unconditionally and the block path reaches that test for every tx and box sub-tx (D32 fix). "
+      "It does NOT decide the numeric equalities (sum of balances, Σ debits = Σ credits, salary shares ≤ reward, once-per-term reward), value flows inside the EVM "
+      "beyond the Transfer hook, flows of the gas figure through fields/maps/interfaces (reported undecided if they appear), or that chargeForGas finds an income address.",
+      "go/types + go/ssa of x/tools v0.29.0, default build configuration; the frozen tables in lint/internal/rules/c05.go (writer table, three gas-accumulating loops, "
+      "two execution roots); math/big modelled as z.Op(x,y): x,y flow into z and the result; standard-library and vendored callees are leaves; arithmetic feeding "
+      "SetBalance must be visible at the call site (a helper around Sub/Add needs re-anchoring)")
+
+claim("C11",
+      "ordering/dominance in Finalize + class-hierarchy reachability of balance writers + closed writer sets + candidate-state edge guards + sign-fact validated-use on vote arithmetic (SSA/CFG)",
+      "Narrow structural clauses only. Decides that the end-of-block vote adjustment (ChangeVotesByBalance) runs after issueTermReward and refundCandidateDeposit, "
+      "on the manager that is then finalised, is derived from all BalanceLog entries, and that no call after it in Finalize/RunBlock/MineBlock can reach "
+      "AccountAccessor.SetBalance (CHA-style closure over repository functions incl. interface methods and registered function values, with positive controls); fees are "
+      "charged inside Process/ApplyTxs before Finalize; the call sites of SetVotes (10) and SetVoteFor (4) lie in frozen tables, nobody computes into the pointer GetVotes "
+      "returns, and CallVoteTx moves the old vote before overwriting VoteFor; debits/adjustments only touch accounts tested to be candidates, a non-candidate target is "
+      "rejected, unregistration zeroes votes; every SetVotes fed by big.Int Sub/Add must have a delta proven ≥ 0 or a heeded comparison of operands/result — violated at the "
+      "two debit sites (D19, known findings). It does NOT decide the tally equation (votes = deposit/rate + Σ voter balances/rate), the arithmetic of the adjustment, "
+      "or whether counts are right — only whether the adjustment sees every balance change and whether negative counts are prevented.",
+      "go/types + go/ssa of x/tools v0.29.0; frozen tables in lint/internal/rules/c11.go; reachability treats library functions as leaves and resolves function values "
+      "by signature among address-taken repository functions; writes to the vote fields that bypass the accessor interface (decoders, Copy) are out of scope")
+
+claim("C07",
+      "inter-procedural write-set (effects) analysis with context binding for undo-covers-do, payload type tables, journal-before-write dominance, who-may-call, path-sensitive snapshot/revert pairing (SSA)",
+      "Decides the structural necessary conditions of a faithful change journal for all paths at once: all 19 log types are registered with "
+      "decoders, redo, undo, constructor and journalling setter; every SafeAccount method pushes a constructor-made log before it calls a raw "
+      "*Account mutator (mutators are found by write set, not by name); raw mutators, assertions to *Account and the un-journalled PopEvent are "
+      "unreachable outside package account and Manager hands out SafeAccounts only; for every log type each account-state location written by the "
+      "setter is written by the registered undo (or restored by RevertToSnapshot itself) and by the redo; constructors record OldVal from a read of "
+      "the account and undo restores from it; the dynamic payload shapes a constructor can store are accepted by the undo's assertions (an undo error "
+      "panics); in all 11 functions that take a snapshot every failing execution or journalling step passes RevertToSnapshot(same snapshot) on every "
+      "path to a return or the next iteration; RebuildAll replays from the parent state, skips exactly the four root logs and heeds Redo errors; "
+      "Account.Save stores code only when there is code and clears the dirty flag. One recorded finding (CodeLog keeps no old value). It does not "
+      "decide that undo restores the same VALUE, deep-copy aliasing of OldVal, or the behaviour of nested snapshot histories.",
+      "write sets are over-approximated by access paths (depth 9) with one level of calling context; cache-fill locations (trie, cached) are not "
+      "account state; three reasoned exemptions (event list has no reader; asset roots of a self-destructing contract are empty) whose premises are "
+      "checked; go/ssa + go/types of x/tools v0.29.0; rule table lint/internal/rules/c07.go")
